@@ -3,8 +3,8 @@ package sim
 import (
 	"fmt"
 	"os"
-	"regexp"
 	"path/filepath"
+	"regexp"
 	"sort"
 	"strings"
 	"time"
@@ -14,15 +14,15 @@ import (
 
 // Result of executing one program.
 type Result struct {
-	Violations []Violation `json:"violations,omitempty"`
-	Trouble    string      `json:"trouble,omitempty"` // harness trouble: never a violation
-	Events     []string    `json:"events,omitempty"`
-	Ops        int         `json:"ops"`
-	SimTime    int64       `json:"sim_ns"`
+	Violations []Violation    `json:"violations,omitempty"`
+	Trouble    string         `json:"trouble,omitempty"` // harness trouble: never a violation
+	Events     []string       `json:"events,omitempty"`
+	Ops        int            `json:"ops"`
+	SimTime    int64          `json:"sim_ns"`
 	Faults     map[string]int `json:"faults,omitempty"`
 	Probes     map[string]int `json:"probes,omitempty"`
-	States     []uint64    `json:"-"`
-	Inter      string      `json:"-"` // interleaving fingerprint
+	States     []uint64       `json:"-"`
+	Inter      string         `json:"-"` // interleaving fingerprint
 	ids        map[string]string
 }
 
@@ -117,36 +117,36 @@ func CleanupScratch() {
 
 // StoreWorld (W-store): one queue.Store driven sequentially against the model.
 type StoreWorld struct {
-	Cfg    QConfig
-	Clock  *Clock
-	Store  queue.Store
-	Model  *Model
-	Res    *Result
-	names  *namer
-	leases []string // every lease id issued, in order
-	ids    []string // every message id ever stored, in order
-	dir    string
-	dbPath string
+	Cfg     QConfig
+	Clock   *Clock
+	Store   queue.Store
+	Model   *Model
+	Res     *Result
+	names   *namer
+	leases  []string // every lease id issued, in order
+	ids     []string // every message id ever stored, in order
+	dir     string
+	dbPath  string
 	closeFn func() error
-	inner  queue.Store // the unwrapped store (verif exports)
+	inner   queue.Store // the unwrapped store (verif exports)
 	// when set, every violation is kept; otherwise the world stops at the first
-	StopAtFirst bool
-	step int
-	loc  string
-	last string
+	StopAtFirst    bool
+	step           int
+	loc            string
+	last           string
 	stepViolations int
 	// fault / crash support (W-crash)
-	Disk        *Disk
-	assume      func(m *Model) // applies the operation in flight "as if it succeeded"
-	alt         *Model         // variant in which an in-doubt operation took effect
-	faultInStep bool           // an injected (non-crash) disk fault fired during this step
-	phase       string         // "op" while the main store call runs, "observe" afterwards
-	doubtful    bool
-	variants    []*Model         // further admissible pictures for the next observation (restart)
-	lingering   []func(m *Model) // operations that failed after a disk fault and may surface at the next recovery
-	keepLingering bool
+	Disk                *Disk
+	assume              func(m *Model) // applies the operation in flight "as if it succeeded"
+	alt                 *Model         // variant in which an in-doubt operation took effect
+	faultInStep         bool           // an injected (non-crash) disk fault fired during this step
+	phase               string         // "op" while the main store call runs, "observe" afterwards
+	doubtful            bool
+	variants            []*Model         // further admissible pictures for the next observation (restart)
+	lingering           []func(m *Model) // operations that failed after a disk fault and may surface at the next recovery
+	keepLingering       bool
 	nextID, nextPayload int
-	batchFirstID string
+	batchFirstID        string
 }
 
 func openStore(cfg QConfig, clock *Clock, dbPath string) (queue.Store, func() error, error) {
@@ -427,6 +427,9 @@ func (w *StoreWorld) Exec(s Step) {
 	r.Ops++
 	w.loc = w.Cfg.Backend + "/" + s.Op
 	w.assume, w.phase, w.doubtful = nil, "op", false
+	if s.Filter == nil {
+		s.Filter = &FilterSpec{} // hand-written corpus programs may leave it out
+	}
 	switch s.Op {
 	case "advance":
 		w.Clock.Advance(s.D)
@@ -454,6 +457,21 @@ func (w *StoreWorld) Exec(s Step) {
 		}
 		envs := make([]queue.Envelope, 0, len(s.Items))
 		w.batchFirstID = ""
+		if s.Bulk > 0 && len(s.Items) > 0 {
+			tmpl := s.Items[0]
+			tmpl.ID, tmpl.DupOfRef = "new", nil
+			s.Items = make([]EnvSpec, s.Bulk)
+			for i := range s.Items {
+				s.Items[i] = tmpl
+			}
+			r.probe(fmt.Sprintf("enqueue_batch.bulk.%d", s.Bulk))
+		}
+		if len(w.Model.Msgs)+len(s.Items) > 950 {
+			// the world observes the whole store through one listing of at most
+			// 1000 messages; stay below that
+			w.sum("enqueue_batch n=%d skipped (world holds %d messages)", len(s.Items), len(w.Model.Msgs))
+			return
+		}
 		for i, it := range s.Items {
 			envs = append(envs, w.env(now, it))
 			if i == 0 {
@@ -658,7 +676,7 @@ func (w *StoreWorld) Exec(s Step) {
 		for _, id := range got {
 			gotNames = append(gotNames, w.nameID(id))
 		}
-		w.sum("list route=%q target=%q state=%q limit=%d order=%q before=%v -> %v %s", req.Route, req.Target, req.State, req.Limit, req.Order, !req.Before.IsZero(), gotNames, errShort(err))
+		w.sum("list route=%q target=%q state=%q limit=%d order=%q before=%v -> %s %s", req.Route, req.Target, req.State, req.Limit, req.Order, !req.Before.IsZero(), nameList(gotNames), errShort(err))
 		if !valid {
 			if err == nil {
 				w.add([]Violation{viol("C13.list.order", "C13", "ListMessages accepted invalid order %q", req.Order)})
@@ -683,7 +701,7 @@ func (w *StoreWorld) Exec(s Step) {
 			deadNames = append(deadNames, w.nameID(it.ID))
 		}
 		sort.Strings(deadNames)
-		w.sum("list_dead route=%q limit=%d -> %v %s", f.Route, f.Limit, deadNames, errShort(err))
+		w.sum("list_dead route=%q limit=%d -> %s %s", f.Route, f.Limit, nameList(deadNames), errShort(err))
 		if err != nil {
 			w.add([]Violation{viol("C02.list.error", "C02,C13", "ListDead failed: %v", err)})
 			return
@@ -771,7 +789,6 @@ func RunStoreProgram(p *Program) *Result {
 	}
 	return w.Res
 }
-
 
 // Canon is the canonical model state used to decide whether two backends that
 // executed the same program are still in the same abstract state (lease ids are
